@@ -272,7 +272,8 @@ def photo_cases(draw):
     return {"mag": draw(st.floats(-5, 30)), "band": draw(st.sampled_from(BANDS)), "default_band": draw(st.booleans()),
             "mask": draw(gen.mask01(n, min_active=1)), "pxl": draw(gen.logfloat(1e-3, 2)), "t": draw(gen.logfloat(1e-4, 100)),
             "k": draw(st.integers(2, 5)), "wb": draw(gen.logfloat(1, 500)), "flux": draw(gen.logfloat(1e-3, 1e14)),
-            "mags": np.array(draw(st.lists(st.floats(-5, 30), min_size=1, max_size=4)))}
+            "mags": np.array(draw(st.lists(st.floats(-5, 30), min_size=1, max_size=4))),
+            "imag": draw(st.integers(-5, 30)), "itype": draw(st.sampled_from(["int", "int8", "int16", "int32", "int64", "uint8", "uint16", "uint32", "uint64"]))}
 
 
 def photo_body(ctx, case):
@@ -289,6 +290,21 @@ def photo_body(ctx, case):
     # arrays element-wise
     ma = case["mags"]
     ctx.close(astro.magnitude_to_flux(ma, **kw), np.array([astro.magnitude_to_flux(float(m), **kw) for m in ma]), 1e-14, "magnitude_to_flux array == per element")
+    # whole-number magnitudes carried by an integer type (catalogue magnitudes stored as integers, signed or unsigned;
+    # scalar and array): the same flux and photon count as the same magnitude given as a float
+    if "imag" in case:
+        im, it = case["imag"], case["itype"]
+        if it.startswith("uint"):
+            im = abs(im)
+        ctx.classes["magnitude_carrier_" + it] += 1
+        carrier = int(im) if it == "int" else getattr(np, it)(im)
+        fref = astro.magnitude_to_flux(float(im), **kw)
+        ctx.close(astro.magnitude_to_flux(carrier, **kw), fref, 1e-12, "magnitude_to_flux(%s(%d)) == magnitude_to_flux(%d.0)" % (it, im, im), scale=fref, name="integer-typed magnitude (scalar)")
+        ctx.close(astro.photons_per_band(carrier, mask, pxl, t, **kw), astro.photons_per_band(float(im), mask, pxl, t, **kw), 1e-12, "photons_per_band(%s(%d)) == photons_per_band(%d.0)" % (it, im, im), scale=fref * t * float(mask.sum()) * pxl ** 2, name="integer-typed magnitude (photons_per_band)")
+        ctx.close(astro.photons_per_mag(carrier, mask, pxl, case["wb"], t), astro.photons_per_mag(float(im), mask, pxl, case["wb"], t), 1e-12, "photons_per_mag(%s(%d)) == photons_per_mag(%d.0)" % (it, im, im), scale=astro.photons_per_mag(float(im), mask, pxl, case["wb"], t), name="integer-typed magnitude (photons_per_mag)")
+        if it != "int":
+            arr = np.array([im, im + 1, 0], dtype=it)
+            ctx.close(astro.magnitude_to_flux(arr, **kw), np.array([astro.magnitude_to_flux(float(m), **kw) for m in arr]), 1e-12, "magnitude_to_flux(%s array) == per element as floats" % it, name="integer-typed magnitude (array)")
     # default band is V
     if case["default_band"]:
         ctx.equal(f, astro.magnitude_to_flux(mag, "V"), "default waveband is V")
